@@ -27,3 +27,26 @@ package dtls
 //@ ensures w-initial-epoch: result.InitialEpoch == 0
 //@ ensures w-resume-state: result.ResumeState == resumeState
 //@ end
+
+// The name the certificate is verified against is the configured one, unaltered - also when it is an IP address literal
+// (which only the server_name extension must not carry, RFC 6066 3): fix 320cd05.
+//@ func newConnConfigValues
+//@ watch effectiveReplayProtectionWindow
+//@ requires args: config != nil
+//@ ensures w-server-name-unaltered: result1 == nil ==> result0.serverName == config.ServerName
+//@ ensures w-replay-window: result1 == nil ==> called("effectiveReplayProtectionWindow") && argInt("effectiveReplayProtectionWindow", 0) == config.ReplayProtectionWindow && result0.replayProtectionWindow == retInt("effectiveReplayProtectionWindow", 0)
+//@ end
+
+// summarised helpers of newConnConfigValues (their results are not what the wiring clauses speak about)
+//@ func parseConnSignatureSchemes
+//@ noinline
+//@ end
+//@ func effectiveProtocolVersionRange
+//@ noinline
+//@ end
+//@ func newConnLogger
+//@ noinline
+//@ end
+//@ func effectiveEllipticCurves
+//@ noinline
+//@ end
